@@ -102,6 +102,8 @@ def coq_ev(c):
         return "EUdpBind %d %d %d %d" % (c[1], c[2], c[3], c[4])
     if n == "udp_send":
         return "EUdpSend %d %d %d %d" % (c[1], c[2], c[3], c[4])
+    if n == "set_isn":
+        return "ESetIsn %d %d" % (c[1], c[2])
     if n == "udp_connect":
         return "EUdpConnect %d %d %d" % (c[1], c[2], c[3])
     if n == "udp_send_c":
@@ -156,7 +158,7 @@ def enc_obs(cmd, o):
         return [[0, o["n"]]] if r == "ok" else _err(r)
     if n in ("read", "peek"):
         return [[0], list(o["b"])] if r == "ok" else _err(r)
-    if n in ("shutdown", "close", "cancel", "udp_connect"):
+    if n in ("shutdown", "close", "cancel", "udp_connect", "set_isn"):
         return [[0]] if r == "ok" else _err(r)
     if n == "addrs":
         a = o["a"]
@@ -581,6 +583,77 @@ def bidi_cases():
         sc.add(["read", q, 64], ["read", hb, 64], ["rows", 0], ["rows", 1], ["netstat", 0], ["netstat", 1])
         out.append({"cfg": cfg, "script": sc.s, "flavour": "bidi",
                     "plan": {"w": q, "r": hb, "both": True, "fair_from": 0, "drops": 1, "ls": ls}})
+    return out
+
+
+def handshake_ack_lost_cases():
+    """Deterministic family (always emitted, C13): exactly the client's third handshake packet (the bare ACK) is
+    lost; the client does not send first (nobody speaks, or the server speaks first after accept).  The server
+    child retransmits its SYN-ACK, the established client must answer it, and accept must hand the connection out
+    - once - within the retransmit budget."""
+    out = []
+    for (th, mx, v6, speak) in [(3, 5, False, "nobody"), (2, 3, False, "server"), (3, 2, True, "nobody"), (1, 2, False, "server")]:
+        cfg = full_cfg({"retx_threshold": th, "retx_max": mx, "backlog": 4, "send_cap": 64, "recv_cap": 64, "v6": v6})
+        sc = Script()
+        ls, cs, as_ = sc.slot(), sc.slot(), sc.slot()
+        sc.add(["listen", ls, 1, 3, 80], ["connect", cs, 0, 3, 80], E, D(0), E, D(0), ["poll_connect", cs],
+               E, ["drop", 0])                                           # the bare ACK of the handshake is lost
+        for _ in range(th * 2 + 3):
+            sc.add(E, ["flush"], ["accept", ls, as_], ["netstat", 1])
+        spare = sc.slot()
+        sc.add(["accept", ls, spare])                                    # nothing else to hand out
+        if speak == "server":
+            sc.add(["write", as_, [9, 8, 7]], E, ["flush"], ["read", cs, 10])
+        sc.add(["close", cs], ["close", as_], ["close", spare], ["close", ls])
+        for _ in range(4):
+            sc.add(E, ["flush"])
+        sc.add(["counts", 0], ["counts", 1], ["rows", 0], ["rows", 1])
+        fin = sc.slot()
+        sc.add(["listen", fin, 1, 3, 80], ["counts", 1])
+        out.append({"cfg": cfg, "script": sc.s, "flavour": "hs_ack_lost",
+                    "plan": {"closed_all": True, "settled": True, "port": 80, "final_listen": fin,
+                             "expect_accept": {"ls": ls, "cs": cs, "drops": 1}}})
+    return out
+
+
+def wrap_cases(rng=None):
+    """Sequence numbers crossing 2^32 (verif hook set_isn): ISN = 2^32 - k on both hosts, transfer larger than k in both
+    directions, both roles, with and without one lost data segment; the model computes on unbounded naturals and the
+    wire shows them mod 2^32.  Deterministic (always emitted); `rng` adds the random variants of the thorough tier."""
+    out = []
+    combos = [(1, False, False, 2), (100, False, True, 20), (100, True, False, 20), (1460, False, False, 1460),
+              (1460, True, True, 100), (5000, False, True, 1460)]
+    for (k, loss, swap, mss) in combos:
+        cfg = full_cfg({"mtu": 40 + mss, "retx_threshold": 2, "retx_max": 5, "backlog": 4,
+                        "send_cap": 8192 if k > 2000 else 4096, "recv_cap": 8192 if k > 2000 else 4096})
+        sc = Script()
+        sc.add(["set_isn", 0, 2 ** 32 - k], ["set_isn", 1, 2 ** 32 - (k // 2 + 1)])
+        ls, cs, as_ = handshake(sc)
+        w, rd = (cs, as_) if not swap else (as_, cs)
+        total = k + (300 if k < 2000 else 1000)
+        back = min(total, 600)
+        chunk = 4096 if k < 2000 else 8192
+        pos = 0
+        first = True
+        while pos < total:
+            n = min(chunk, total - pos)
+            sc.add(["write", w, pattern(10, pos, n)])
+            if pos < back:
+                sc.add(["write", rd, pattern(130, pos, min(200, back - pos))])
+            sc.add(E)
+            if loss and first:
+                sc.add(["drop", 0])
+                first = False
+            sc.add(["flush"], ["read", rd, 70000], ["read", w, 70000])
+            for _ in range(3 + (total // max(1, mss)) // 8):
+                sc.add(E, ["flush"], ["read", rd, 70000], ["read", w, 70000])
+            pos += n
+        sc.add(["shutdown", w], ["shutdown", rd])
+        for _ in range(10):
+            sc.add(E, ["flush"], ["read", rd, 70000], ["read", w, 70000])
+        sc.add(["read", rd, 8], ["read", w, 8], ["rows", 0], ["rows", 1], ["netstat", 0], ["netstat", 1])
+        out.append({"cfg": cfg, "script": sc.s, "flavour": "wrap",
+                    "plan": {"w": w, "r": rd, "both": True, "fair_from": 0, "drops": 1 if loss else 0, "ls": ls}})
     return out
 
 
